@@ -4,7 +4,7 @@ every run of `./check C17` (a second tie between source and hand-written model `
 
 Standalone (it shares only `TranslateError` / `write_if_changed` / `find_function` with translate_py_csv.py).  The subset:
 
-  * statements: `x = e`, `l[i] = e` (`List.set`), `l[-1] = e` (IndexError on an empty list), `l[-1:] = e`, `if` (tests: a name,
+  * statements: `x = e`, `l[i] = e` / `l[-1] = e` (IndexError outside the list), `l[-1:] = e`, `if` (tests: a name,
     an int-valued expression, `a and b` = nested ifs so that `b` is evaluated only when `a` holds), `return e`, `break`, and ONE
     loop shape: `while True:` whose body is a single `for i, item in enumerate(l[a:-1]): … else: …`.  The locals assigned inside
     the loop that exist in front of it are the loop-carried `State`; the `for` body becomes `forBody st i item`, the `else` block
@@ -289,7 +289,9 @@ class Tr:
                     l, lt = self.ex(tgt.value, env)
                     if lt != "liststr" or vt not in ("str", "char") or it != "nat":
                         self.err(s, "item assignment %s[%s] <- %s" % (lt, it, vt))
-                    new = "(List.set %s %s %s)" % (l, i, self.as_str(v, vt, s))
+                    y = self.fresh("v")
+                    self.pending.append(("setIdxE %s %s %s" % (l, i, self.as_str(v, vt, s)), y))
+                    new = y
                 eff = self.take()
                 x = self.fresh()
                 env[name] = (x, "liststr")
@@ -491,6 +493,10 @@ def getLastE (l : List Str) : PyM Str :=
   match l.getLast? with
   | none => .error .IndexError
   | some v => .ok v
+
+/-- `l[i] = v` for `i ≥ 0` -/
+def setIdxE (l : List Str) (i : Nat) (v : Str) : PyM (List Str) :=
+  if i < l.length then .ok (l.set i v) else .error .IndexError
 
 /-- `l[-1] = v` -/
 def setLastE (l : List Str) (v : Str) : PyM (List Str) :=
